@@ -135,8 +135,8 @@ PROPS['C03'] = {
 PROPS['C05'] = {
     'title': 'EventQueue consumes every queued event exactly once, in FIFO order',
     'level': 'model_checking',
-    'parts': split('harness/queue.cpp', 'C05/', 5, 3, ['g17'], ['g17O0']),
-    'rule': 'BFS over histories of {enqueue (both argument-passing forms, 2 keys), process, processOne, processIf x4 predicates, processUntil x4 predicates, peekEvent, takeEvent, takeEvent+dispatch(QueuedEvent), clearEvents, emptyQueue+waitFor(0), appendListener, removeListener slot}; listeners and predicates take PROG choices (enqueue, listener changes, emptyQueue, peek, nested process/processOne/clearEvents/takeEvent); lock-step model predicts the next callback (listener with event, or predicate) at every moment; state key includes free-list length and both counters',
+    'parts': split('harness/queue.cpp', 'C05/', 5, 4, ['g17'], ['g17O0']),
+    'rule': 'BFS over histories of {enqueue (both argument-passing forms, 2 keys), process, processOne, processIf x4 predicates, processUntil x4 predicates, peekEvent, takeEvent, takeEvent+dispatch(QueuedEvent), clearEvents, emptyQueue+waitFor(0), appendListener, removeListener slot}; listeners and predicates take PROG choices (enqueue, listener changes, emptyQueue, peek, nested process/processOne/clearEvents/takeEvent); lock-step model predicts the next callback (listener with event, or predicate) at every moment; state key includes free-list length and both counters; payload taken by the prototype as const&, by value, or a move-only type (no peekEvent there)',
     'assumptions': H_ASSUME,
     'bounds': {'quick': 'K=3 pending, <=2 listeners, flat depth 5-6, nested budget 1 depth 4', 'thorough': 'flat to fixpoint or depth 30, nested budget 2 depth 5'},
 }
